@@ -327,6 +327,23 @@ def check_output_side(t, T, data, kw, uni, res, what, rc, real):
             res.violate("render-raises", "%s: output_encoding=%s/%s render() raised %s" % (what, enc, errors, goterr), replay_case=rc)
         elif got != expb:
             res.violate("encoded-output-differs", "%s: output_encoding=%s/%s render() = %r, render_unicode().encode() = %r" % (what, enc, errors, got, expb), replay_case=rc)
+        # the same identity for a single def rendered through get_def(name)
+        for dn in [d for d in t2.list_defs() if d.startswith("f")][:1]:
+            dt = t2.get_def(dn)
+            du = dt.render_unicode()
+            try:
+                dexp = ("ok", du.encode(enc, errors))
+            except UnicodeEncodeError:
+                dexp = ("UnicodeEncodeError",)
+            try:
+                dgot = ("ok", dt.render())
+            except UnicodeEncodeError:
+                dgot = ("UnicodeEncodeError",)
+            except Exception as e:
+                dgot = ("exc", "%s: %s" % (type(e).__name__, e))
+            res.count("def_output_encodings_compared")
+            if dgot != dexp:
+                res.violate("def-encoded-output-differs", "%s: output_encoding=%s/%s get_def(%r).render() = %r, render_unicode().encode() = %r" % (what, enc, errors, dn, dgot, dexp), replay_case=rc)
 
 
 def gen_cases(tier, seed):
